@@ -230,6 +230,8 @@ def RtCtx.apply (c : RtCtx) (σ : CState) (isStart : Bool) : AEv → CState
   | .brk => σ
   | .ret _ => σ
   | .yield _ => σ
+  | .opt _ => σ
+  | .raised => σ
 
 def RtCtx.answer (c : RtCtx) (σ : CState) : Quest → Option Bool
   | .cond e =>
